@@ -92,3 +92,30 @@ fn d36_chunk_duration_overflow() {
     });
     assert!(res.is_ok(), "muxer panicked: chunk_duration overflow");
 }
+
+/// D-37: an AVC sequence parameter set shorter than 4 bytes panics in add_track (sps[1..4] indexed unchecked)
+#[test]
+fn d37_short_sps() {
+    let res = std::panic::catch_unwind(|| {
+        let mut w = Mp4Writer::write_start(Cursor::new(Vec::new()), &cfg()).unwrap();
+        let t = TrackConfig { track_type: TrackType::Video, timescale: 1000, language: "und".into(),
+                              media_conf: MediaConfig::AvcConfig(AvcConfig { width: 16, height: 16, seq_param_set: vec![0x67, 0x42], pic_param_set: vec![0x68] }) };
+        let _ = w.add_track(&t);
+    });
+    assert!(res.is_ok(), "add_track panicked on a 2-byte SPS");
+}
+
+/// D-38: an AAC sample of 16 MiB or more makes write_end panic: buffer_size_db (24-bit field) is set to the largest sample size
+#[test]
+fn d38_buffer_size_db_24_bits() {
+    let res = std::panic::catch_unwind(|| {
+        let mut w = Mp4Writer::write_start(Cursor::new(Vec::new()), &cfg()).unwrap();
+        let t = TrackConfig { track_type: TrackType::Audio, timescale: 48000, language: "und".into(),
+                              media_conf: MediaConfig::AacConfig(AacConfig::default()) };
+        w.add_track(&t).unwrap();
+        let big = vec![0u8; 0x100_0000];
+        w.write_sample(1, &sample(&big, 1024, true)).unwrap();
+        let _ = w.write_end();
+    });
+    assert!(res.is_ok(), "write_end panicked: buffer_size_db does not fit 24 bits");
+}
